@@ -31,7 +31,7 @@ def Ev.isFinOf (d : Name) : Ev → Bool
 /-- any event that names task `d` (reports, start, end) -/
 def Ev.mentions (d : Name) : Ev → Bool
   | .getStatus n | .skipIgn n | .skipUtd n | .execute n | .success n | .failure n _ | .teardown n
-  | .start n _ | .fin n _ | .go n => n = d
+  | .start n _ | .fin n _ | .go n _ => n = d
   | .complete => false
 
 def finishedIn (tr : List Ev) (d : Name) : Bool := tr.any (Ev.isFinishOf d)
